@@ -128,43 +128,56 @@ func deepApp(loadPerLevel bool, big int) *app.App {
 
 // runC07Wide: a wizard - a chain of nodes that each load three symbols of their own, so that the session holds dozens
 // to hundreds of distinct live symbols (no single scope is large).
+// wideApp: a chain of depth nodes, each loading per symbols; the history walks to the bottom and a few steps back.
+func wideApp(depth, per int) (*app.App, app.Config, []string) {
+	a := app.NewApp()
+	a.FlagCount = 1
+	for k := 0; k < depth; k++ {
+		name := fmt.Sprintf("w%d", k)
+		if k == 0 {
+			name = "root"
+		}
+		var code []codec.Ins
+		for j := 0; j < per; j++ {
+			sym := fmt.Sprintf("%s%d", string(rune('a'+j%26))+strings.Repeat("z", j/26), k)
+			code = append(code, codec.Ins{Op: codec.LOAD, S1: sym, N: 40})
+			a.Funcs[sym] = &app.FuncSpec{Sym: sym, Kind: "id"}
+		}
+		code = append(code, codec.Ins{Op: codec.MAP, S1: fmt.Sprintf("a%d", k)}, codec.Ins{Op: codec.MOUT, S1: "next", S2: "1"}, codec.Ins{Op: codec.MOUT, S1: "back", S2: "0"}, codec.Ins{Op: codec.HALT})
+		if k+1 < depth {
+			code = append(code, codec.Ins{Op: codec.INCMP, S1: fmt.Sprintf("w%d", k+1), S2: "1"})
+		}
+		code = append(code, codec.Ins{Op: codec.INCMP, S1: "_", S2: "0"})
+		a.AddNode(&app.Node{Name: name, Code: code, Template: fmt.Sprintf("step %d {{.a%d}}", k, k)})
+	}
+	a.AddNode(&app.Node{Name: "_catch", Template: "catch page", Code: []codec.Ins{{Op: codec.HALT}, {Op: codec.INCMP, S1: "_", S2: "*"}}})
+	a.Finalize()
+	cfg := app.Config{FlagCount: 1, SessionId: "wide", Root: "root"}
+	hist := []string{""}
+	for k := 1; k < depth; k++ {
+		hist = append(hist, "1")
+	}
+	hist = append(hist, "0", "0", "1", "x", "0")
+	return a, cfg, hist
+}
+
 func runC07Wide(c *vk.Ctx) {
-	for i, depth := range []int{12, 40, 100} {
+	// {levels, symbols loaded per level}: up to 100 levels with three symbols each; one level with 1100 symbols; 110
+	// levels with twelve each (1320 symbols visible at once)
+	for i, shape := range [][2]int{{12, 3}, {40, 3}, {100, 3}, {3, 1100}, {110, 12}} {
+		depth, per := shape[0], shape[1]
 		key := fmt.Sprintf("wide/%d", depth)
+		if per != 3 {
+			key = fmt.Sprintf("wide/%dx%d", depth, per)
+		}
 		if !c.Mine(i+5) || !c.Want(key) {
 			continue
 		}
-		a := app.NewApp()
-		a.FlagCount = 1
-		for k := 0; k < depth; k++ {
-			name := fmt.Sprintf("w%d", k)
-			if k == 0 {
-				name = "root"
-			}
-			var code []codec.Ins
-			for _, f := range []string{"a", "b", "c"} {
-				sym := fmt.Sprintf("%s%d", f, k)
-				code = append(code, codec.Ins{Op: codec.LOAD, S1: sym, N: 40})
-				a.Funcs[sym] = &app.FuncSpec{Sym: sym, Kind: "id"}
-			}
-			code = append(code, codec.Ins{Op: codec.MAP, S1: fmt.Sprintf("a%d", k)}, codec.Ins{Op: codec.MOUT, S1: "next", S2: "1"}, codec.Ins{Op: codec.MOUT, S1: "back", S2: "0"}, codec.Ins{Op: codec.HALT})
-			if k+1 < depth {
-				code = append(code, codec.Ins{Op: codec.INCMP, S1: fmt.Sprintf("w%d", k+1), S2: "1"})
-			}
-			code = append(code, codec.Ins{Op: codec.INCMP, S1: "_", S2: "0"})
-			a.AddNode(&app.Node{Name: name, Code: code, Template: fmt.Sprintf("step %d {{.a%d}}", k, k)})
-		}
-		a.AddNode(&app.Node{Name: "_catch", Template: "catch page", Code: []codec.Ins{{Op: codec.HALT}, {Op: codec.INCMP, S1: "_", S2: "*"}}})
-		a.Finalize()
-		cfg := app.Config{FlagCount: 1, SessionId: "wide", Root: "root"}
-		hist := []string{""}
-		for k := 1; k < depth; k++ {
-			hist = append(hist, "1")
-		}
-		hist = append(hist, "0", "0", "1", "x", "0")
+		a, cfg, hist := wideApp(depth, per)
 		c.Begin(key)
 		c07Compare(c, key, a, cfg, hist, false)
 		c.Count("wide_histories", 1)
+		c.Max("max_symbols_visible_in_a_wide_session", int64(depth*per))
 	}
 }
 
